@@ -90,6 +90,82 @@ func (p para) hasLeftEdge() bool {
 	return false
 }
 
+// a collapsible space that ends its text node (followed by an inline box edge or an atomic inline)
+func (p para) spaceEndsTextNode() bool {
+	for i, t := range p.toks {
+		if t.k == tSpace && i+1 < len(p.toks) {
+			if k := p.toks[i+1].k; k == tOpen || k == tClose || k == tAtom {
+				return true
+			}
+		}
+	}
+	return false
+}
+
+// a space directly inside an inline box edge
+func (p para) spaceAtEdge() bool {
+	for i, t := range p.toks {
+		if t.k == tSpace && ((i > 0 && p.toks[i-1].k == tOpen) || (i+1 < len(p.toks) && p.toks[i+1].k == tClose)) {
+			return true
+		}
+	}
+	return false
+}
+
+func (p para) atomInSpan() bool {
+	d := 0
+	for _, t := range p.toks {
+		switch t.k {
+		case tOpen:
+			d++
+		case tClose:
+			d--
+		case tAtom:
+			if d > 0 {
+				return true
+			}
+		}
+	}
+	return false
+}
+
+func (p para) hasAtom() bool {
+	for _, t := range p.toks {
+		if t.k == tAtom {
+			return true
+		}
+	}
+	return false
+}
+
+// the paragraph ends with a collapsible space (possibly followed by end edges)
+func (p para) endsWithSpace() bool {
+	for i := len(p.toks) - 1; i >= 0; i-- {
+		if p.toks[i].k != tClose {
+			return p.toks[i].k == tSpace
+		}
+	}
+	return false
+}
+
+// a collapsible space directly before a <br> (possibly with edges in between)
+func (p para) spaceBeforeBr() bool {
+	sp := false
+	for _, t := range p.toks {
+		switch t.k {
+		case tSpace:
+			sp = true
+		case tBr:
+			if sp {
+				return true
+			}
+		case tWord, tAtom:
+			sp = false
+		}
+	}
+	return false
+}
+
 func (p para) hasBr() bool {
 	for _, t := range p.toks {
 		if t.k == tBr {
@@ -133,7 +209,10 @@ func (p para) total(g int) int {
 
 type genOpts struct {
 	spans, atoms, brs bool
+	maxDepth          int  // nesting of spans
 	leftEdges         bool // spans may have a non-zero start edge (defect domain KF11-2)
+	edgeSpaces        bool // a space may directly follow a start edge / precede an end edge (defect domain KF11-5)
+	atomsInSpans      bool // atomic inlines may sit inside spans (defect domain KF11-6)
 	spBr              bool // a space may directly precede <br> (defect domain KF11-1)
 	maxLeaves         int
 	maxWord           int
@@ -177,7 +256,8 @@ func (g *gen) content(n int) {
 		case c < 70:
 			// (a space that opens an inline box at the start of a line makes the code drop the box's start
 			// edge: `<p><span style="margin-left:7px"> x` -- not generated, reported separately)
-			if !g.lastSpace && !(g.noLeaf && g.openSinceBreak) {
+			afterOpen := len(g.toks) > 0 && g.toks[len(g.toks)-1].k == tOpen
+			if !g.lastSpace && !(g.noLeaf && g.openSinceBreak) && (g.o.edgeSpaces || !afterOpen) {
 				g.toks = append(g.toks, tok{k: tSpace, html: rng.Pick(g.r, spaceTexts...)})
 				g.lastSpace = true
 			}
@@ -188,7 +268,7 @@ func (g *gen) content(n int) {
 				g.noLeaf, g.openSinceBreak = true, false
 			}
 		case c < 88:
-			if g.o.atoms {
+			if g.o.atoms && (g.depth == 0 || g.o.atomsInSpans) {
 				w := rng.Pick(g.r, g.g, g.g/2, 3*g.g/2, 2*g.g, 7, g.g+1)
 				h := rng.Pick(g.r, g.g/2, g.g, g.g, 2*g.g, g.g+5)
 				ml, mr := rng.Pick(g.r, 0, 0, 0, 3, g.g/2), rng.Pick(g.r, 0, 0, 0, 2, g.g/2)
@@ -199,7 +279,7 @@ func (g *gen) content(n int) {
 				g.leaves++
 			}
 		default:
-			if g.o.spans && g.depth < 3 {
+			if g.o.spans && g.depth < g.o.maxDepth {
 				ml, bl, pl := rng.Pick(g.r, 0, 0, 3, g.g/2, g.g), rng.Pick(g.r, 0, 0, 1, 2), rng.Pick(g.r, 0, 0, 4, g.g/2)
 				if !g.o.leftEdges {
 					ml, bl, pl = 0, 0, 0
@@ -228,6 +308,10 @@ func (g *gen) content(n int) {
 					g.leaves++
 				}
 				g.depth--
+				if n := len(g.toks); !g.o.edgeSpaces && g.toks[n-1].k == tSpace {
+					g.toks = g.toks[:n-1]
+					g.lastSpace = false
+				}
 				g.toks = append(g.toks, tok{k: tClose, n: mr + br + pr, html: `</span>`})
 			}
 		}
